@@ -142,7 +142,7 @@ pub fn cases_simple(rng: &mut Rng, count: usize, tier: &str, which: &str) -> Vec
             tags.push("builder");
             (World::Builder(build::script_from_facts(rng, &f, 1)), f)
         } else {
-            world::gen_world(rng, o, &mut tags)
+            world::gen_world_sub(rng, o, &mut tags)
         };
         let bl = w.build();
         let obs = match which {
